@@ -24,10 +24,16 @@ type c05Pkt struct {
 	Kind string // P0 P1 P2 P2dup R Rrep T
 	ID   int
 	Tag  string
+	Dup  bool // the PUBLISH carries the DUP flag although it is the first copy this session sees (a client retransmitting after it re-connected)
 }
 
 func (p c05Pkt) String() string {
 	switch p.Kind {
+	case "P2":
+		if p.Dup {
+			return fmt.Sprintf("P2(id=%d,%s,DUP flag set)", p.ID, p.Tag)
+		}
+		return fmt.Sprintf("P2(id=%d,%s)", p.ID, p.Tag)
 	case "T":
 		return "TIMEOUT-SWEEP"
 	case "R", "Rrep":
@@ -78,7 +84,7 @@ func c05GenSeq(rg *rand.Rand, s int) []c05Pkt {
 			t := newTag()
 			tags[nextID] = t
 			pending = append(pending, nextID)
-			seq = append(seq, c05Pkt{Kind: "P2", ID: nextID, Tag: t})
+			seq = append(seq, c05Pkt{Kind: "P2", ID: nextID, Tag: t, Dup: rg.Intn(4) == 0})
 		case r < 80 && len(pending) > 0:
 			i := rg.Intn(len(pending))
 			id := pending[i]
@@ -288,7 +294,7 @@ func c05Run(c *fw.Ctx, s int, nNodes int, seq []c05Pkt, fault c05Fault) c05Resul
 				return res
 			}
 		case "P2":
-			pub.Send(kit.EncPublish("c05/t", []byte(p.Tag), 2, false, false, p.ID))
+			pub.Send(kit.EncPublish("c05/t", []byte(p.Tag), 2, false, p.Dup, p.ID))
 			if _, _, err := pub.WaitFor(from, kit.DefaultWait, func(e kit.Event) bool { return e.Pkt.Type == kit.PUBREC && e.Pkt.ID == p.ID }); err != nil {
 				c.Violation("pubrec-missing", fmt.Sprintf("%s: no PUBREC(%d): %v", desc, p.ID, err), wit(nil))
 				return res
